@@ -373,6 +373,9 @@ type gen struct {
 	nser    int
 	active  []int
 	ooo     int64
+	// mono: in half of the cases every series sticks to one sample kind (so there are series whose WAL
+	// samples are float histograms only, integer histograms only, …), in the others kinds are mixed.
+	mono map[int]string
 }
 
 func (g *gen) add(s string) { g.ops = append(g.ops, s) }
@@ -400,6 +403,14 @@ func (g *gen) appOne(sid int, t int64) {
 		kind = "g"
 	case k == 3:
 		kind = "gc"
+	}
+	if g.mono != nil {
+		if mk, ok := g.mono[sid]; ok {
+			kind = mk
+		} else {
+			g.mono[sid] = []string{"f", "h", "hc", "g", "gc", "g", "h"}[g.r.Intn(7)]
+			kind = g.mono[sid]
+		}
 	}
 	ex := "-"
 	if g.r.Chance(12) {
@@ -456,6 +467,9 @@ func (g *gen) trunc() {
 
 func genCase(r *h.Rng, maxOps int) []string {
 	g := &gen{r: r}
+	if r.Chance(50) {
+		g.mono = map[int]string{}
+	}
 	g.ooo = []int64{0, 0, 0, 1, 5, 40}[r.Intn(6)]
 	inmem := 0
 	if r.Chance(15) {
